@@ -443,10 +443,11 @@ def main(argv):
     if tier not in ("quick", "thorough"):
         print("tier must be quick or thorough")
         return 3
-    wdir = os.path.join(BUILD, "work", pid + "-" + tier)
+    scratch = (os.path.realpath(REPO) != "/repo")   # VERIF_REPO points at a scratch tree (sensitivity runs): keep those results apart
+    wdir = os.path.join(BUILD, "work", "%s-%s-%d" % (pid, tier, os.getpid()))
     shutil.rmtree(wdir, ignore_errors=True)
     os.makedirs(wdir)
-    odir = os.path.join(OUT, pid)
+    odir = os.path.join(OUT, pid if not scratch else "%s-scratch-%d" % (pid, os.getpid()))
     os.makedirs(odir, exist_ok=True)
 
     plan = spec["plan"](tier, seed)
@@ -636,11 +637,13 @@ def main(argv):
         "wall_s": round(wall, 2),
         "violations": len(violations),
     }
-    os.makedirs(os.path.join(ROOT, "evidence"), exist_ok=True)
-    with open(os.path.join(ROOT, "evidence", pid + ".json"), "w") as f:
+    evdir = os.path.join(ROOT, "evidence") if not scratch else os.path.join(BUILD, "evidence-scratch")
+    os.makedirs(evdir, exist_ok=True)
+    with open(os.path.join(evdir, pid + ".json"), "w") as f:
         json.dump(evidence, f, indent=1, sort_keys=False)
         f.write("\n")
 
+    shutil.rmtree(wdir, ignore_errors=True)
     for line in known_lines:
         print(line)
     for n in notes:
